@@ -16,14 +16,14 @@ func init() {
 	register(&propDef{
 		ID:  "C01",
 		Run: runC01,
-		Explain: "Decided (pipeline structure): (a) in processLineSync every acyclic path adds 1 to readLines exactly once, adds to at most one of matchedLines/ignoredLines, and returns ok=true exactly on the paths that counted a match; (b) in both batcher loops every scanned line is appended exactly once per iteration, every append reaches a send (in-loop cut or the final len(batch)>0 flush on every path to the exit) and after each send the batch variable is re-bound to a fresh make before it is appended to again (a sent slice is never written again); (c) the worker loop leaves only when the channel is closed, visits every element of every batch (no break/continue/return in the range), hands each to processLineSync and forwards every non-empty result slice; (d) both channels are closed only after all their senders finished (same rules as C05-c); (e) the three counters are only accessed through sync/atomic; (f) a match is ignored exactly when some ignore expression is Truthy, and Truthy is TrimSpace(s) != \"\". " +
+		Explain: "Decided (pipeline structure): (a) in processLineSync every acyclic path adds 1 to readLines exactly once, adds to at most one of matchedLines/ignoredLines, and returns ok=true exactly on the paths that counted a match; (b) in both batcher loops every scanned line is appended exactly once per iteration, every append reaches a send (in-loop cut or the final len(batch)>0 flush on every path to the exit) and after each send the batch variable is re-bound to a fresh make before it is appended to again (a sent slice is never written again); (c) the worker loop leaves only when the channel is closed, visits every element of every batch (no break/continue/return in the range), hands each to processLineSync and forwards every non-empty result slice; (d) both channels are closed only after all their senders finished (same rules as C05-c); (e) the three counters are only accessed through sync/atomic; (f) a match is ignored exactly when some ignore expression is Truthy, and Truthy is TrimSpace(s) != \"\". (g) every worker evaluates with its own matcher instance: CreateInstance is called once per worker goroutine and every CreateInstance implementation returns a freshly built value (or a stateless receiver). " +
 			"NOT decided: that the multiset of emitted keys equals a sequential evaluation for every input (depends on matcher and expression values), exact line splitting (C04), liveness.",
 		Assume: []string{"channels deliver every sent value exactly once"},
 	})
 	register(&propDef{
 		ID:  "C02",
 		Run: runC02,
-		Explain: "Decided: (a) line-number arithmetic: in both batcher loops BatchStart of every sent batch is the variable initialised to the constant 1 and, on every path between two sends, advanced exactly once by uint64(len(batch)) of the batch just sent, before batch is re-made; the worker passes batch.BatchStart + uint64(idx) with idx the range index over batch.Batch and batch.Source as source, and the Match literal stores the function's own line / lineNum / source parameters; (b) the unsafe string view in processLineSync is taken from the address of the line parameter and that same parameter is kept alive in the Match; no other unsafe use exists in the default build outside the two audited sites; (c) read buffers are never rewritten in place (shared with C04-a); (d) IntPool never recycles: pool is only re-bound to a fresh make or to a suffix of itself, and the returned slice is the prefix taken before; (e) group lookup cannot read outside the match (E-PANIC obligations of the expression context and of colour wrapping); list view {@} writes its separator by position, not by emptiness; (f) the ignore-case and posix flags reach the matcher constructors. " +
+		Explain: "Decided: (a) line-number arithmetic: in both batcher loops BatchStart of every sent batch is the variable initialised to the constant 1 and, on every path between two sends, advanced exactly once by uint64(len(batch)) of the batch just sent, before batch is re-made; the worker passes batch.BatchStart + uint64(idx) with idx the range index over batch.Batch and batch.Source as source, and the Match literal stores the function's own line / lineNum / source parameters; (b) the unsafe string view in processLineSync is taken from the address of the line parameter and that same parameter is kept alive in the Match; no other unsafe use exists in the default build outside the two audited sites; (c) read buffers are never rewritten in place (shared with C04-a); (d) IntPool never recycles: pool is only re-bound to a fresh make or to a suffix of itself, and the returned slice is the prefix taken before; (e) group lookup cannot read outside the match (E-PANIC obligations of the expression context and of colour wrapping); list view {@} writes its separator by position, not by emptiness; (f) the ignore-case and posix flags reach the matcher constructors. The pattern handed to the matcher compilers is the user's flag value, at most prefixed with the constant (?i); colouring copies the line piecewise and contiguously (every piece starts at, or provably not before, the end of the previous one). " +
 			"NOT decided: that capture values equal the leftmost match of the regexp (library semantics), in-order emission with one worker (schedule property), byte identity of coloured filter output.",
 		Assume: []string{"regexp.FindSubmatchIndex returns -1 or ordered in-range pairs"},
 	})
